@@ -11,6 +11,7 @@ M = [
  ("bin_mid_shifted", P+"BinaryPartition.py", "domain2[dim] = [(selected_dim[0] + selected_dim[1]) / 2, selected_dim[1]]", "domain2[dim] = [(selected_dim[0] + selected_dim[1]) / 2 + (selected_dim[1]-selected_dim[0])*1e-9, selected_dim[1]]", ["C02"]),
  ("rkary_last_not_pinned", P+"RandomKaryPartition.py", "                boundary_point_1 = selected_dim[1]\n", "                boundary_point_1 = np.random.uniform(boundary_point_0, selected_dim[1])\n", ["C02"]),
  ("kary_linspace_num_K", P+"KaryPartition.py", "num=self.K + 1)", "num=self.K + 2)[:-1]", ["C02"]),
+ ("dimbin_reverse_dropped_dimension_order", P+"DimensionBinaryPartition.py", "            domain.reverse()\n", "", ["C02"]),
  ("kary_index_formula", P+"KaryPartition.py", "index=self.K * parent.get_index() - (self.K - i - 1)", "index=self.K * parent.get_index() - (self.K - i)", ["C03"]),
  ("bin_index_formula", P+"BinaryPartition.py", "index=2 * parent.get_index() - 1", "index=2 * parent.get_index() + 1", ["C03"]),
  ("dimbin_depth_not_incremented", P+"DimensionBinaryPartition.py", "            self.depth += 1\n", "            pass\n", ["C03"]),
@@ -60,6 +61,15 @@ M = [
  ("user_box_normalised_in_place", P+"Partition.py", "        self.domain = domain\n", "        for i in range(len(domain)):\n            domain[i] = [float(domain[i][0]), float(domain[i][1])]\n        self.domain = domain\n", ["C14"]),
  ("soo_equivalent_vmax_dropped_note", A+"SOO.py", "                if max_value >= v_max:", "                if max_value >= v_max or True:", []),
 ]
+# refactors that do NOT break any property: every listed check must stay silent (exit 0) or inconclusive, never VIOLATION
+BENIGN = [
+ ("benign_hct_pull_returns_a_copy", A+"HCT.py", "        return self.curr_node.get_cpoint()", "        return list(self.curr_node.get_cpoint())", ["C04", "C05", "C06", "C01", "C15"]),
+ ("benign_hoo_tie_break_first_max", A+"HOO.py", "                if child.get_b_value() >= maxchild.get_b_value():", "                if child.get_b_value() > maxchild.get_b_value():", ["C05", "C04", "C06"]),
+ ("benign_soo_last_point_copy", A+"SOO.py", "        return max_node.get_cpoint()", "        return list(max_node.get_cpoint())", ["C07", "C01"]),
+ ("benign_partition_copies_layer_list", P+"BinaryPartition.py", "            self.node_list.append(new_deepest)", "            self.node_list.append(list(new_deepest))", ["C03", "C02"]),
+ ("benign_zooming_dict_copy_iteration", A+"Zooming.py", "        for arm in self.active_points.keys():", "        for arm in list(self.active_points.keys()):", ["C11", "C04"]),
+ ("benign_stosoo_mean_cached_recompute", A+"StoSOO.py", "            self.mean_reward = np.sum(np.array(self.rewards)) / self.visited_times\n            self.b_value", "            self.mean_reward = float(np.mean(self.rewards))\n            self.b_value", ["C08", "C04"]),
+]
 FIXES = [("revert_D1_aliasing", "3390a7d", ["C03", "C04", "C05"]), ("revert_D2_reexpand", "6954983", ["C03", "C04", "C06"]),
          ("revert_D3_doo_delta", "d9fdcc2", ["C01"]), ("revert_D4_doo_newlayer", "d0c5d08", ["C03", "C08"]),
          ("revert_D5_doo_last", "04672b9", ["C07"]), ("revert_D6_zooming", "2f2c69a", ["C11"]),
@@ -96,6 +106,13 @@ def main():
     log("# %s  selection=%s" % (time.strftime("%F %T"), sel))
     for name, f, old, new, checks in M:
         if sel and not any(s in name or s in checks for s in sel): continue
+        def prep(tmp, f=f, old=old, new=new):
+            p = os.path.join(tmp, f); s = open(p).read()
+            if s.count(old) < 1: return False
+            open(p, "w").write(s.replace(old, new, 1)); return True
+        run(name, prep, checks, log)
+    for name, f, old, new, checks in BENIGN:
+        if sel and not any(s in name for s in sel): continue
         def prep(tmp, f=f, old=old, new=new):
             p = os.path.join(tmp, f); s = open(p).read()
             if s.count(old) < 1: return False
